@@ -557,17 +557,31 @@ CTM_SHAPE = (((), (), ()), ((),))
 CTM_NAMES = ['Root', 'A', 'B', 'C', 'D']
 
 
-def replay_ctc_metrics(trees):
+DOTTED = {'A': 'lib.core', 'B': 'lib', 'C': 'org.x', 'D': 'org', 'Root': 'Root'}
+
+
+def _dot(t):
+    if isinstance(t, tuple):
+        return (t[0],) + tuple(_dot(x) for x in t[1:])
+    return DOTTED.get(t, t) if isinstance(t, str) else t
+
+
+def replay_ctc_metrics(trees, dotted=False):
     """report of a model that carries these constraints: every constraint metric (simple / requires / excludes / complex
-    listings and counts, constraints per feature, features in constraints) equals its definition computed on the trees."""
+    listings and counts, constraints per feature, features in constraints) equals its definition computed on the trees.
+    dotted: the features are called lib.core, lib, org.x, org (a name is a name, also with a dot in it)."""
     from .common import totuple as _tt
     trees = [_tt(t) for t in trees]
-    m = R.build(CTM_SHAPE, [(1, 3), (0, 1)], names=CTM_NAMES, ctcs=[R.ctc('k%d' % i, t) for i, t in enumerate(trees)])
+    names = CTM_NAMES
+    if dotted:
+        trees = [_dot(t) for t in trees]
+        names = [DOTTED[x] for x in CTM_NAMES]
+    m = R.build(CTM_SHAPE, [(1, 3), (0, 1)], names=names, ctcs=[R.ctc('k%d' % i, t) for i, t in enumerate(trees)])
     try:
         res = FMMetrics().execute(m).get_result()
     except Exception as exc:
         return ['metrics raise %s: %s on constraints %r' % (type(exc).__name__, exc, trees)]
-    bad = check_report(res, CTM_SHAPE, [(1, 3), (0, 1)], [False] * 5, trees, m, feat_names=CTM_NAMES)
+    bad = check_report(res, CTM_SHAPE, [(1, 3), (0, 1)], [False] * 5, trees, m, feat_names=names)
     return ['%s [%s] constraints %r' % (msg, key, trees) for key, msg in bad]
 
 
@@ -595,9 +609,10 @@ def batch_ctc_metrics(which, lo, hi, seed):
             res['instances'] += 1
             res['native_runs'] += 1
             res['nontrivial'] += 1
-            bad = replay_ctc_metrics(ts)
+            dotted = (i % 4 == 1)
+            bad = replay_ctc_metrics(ts, dotted)
             if bad:
-                res['violations'].append({'label': 'constraint-metrics', 'detail': bad[0][:600], 'replay_func': 'replay_ctc_metrics', 'replay_args': [ts]})
+                res['violations'].append({'label': 'constraint-metrics', 'detail': bad[0][:600], 'replay_func': 'replay_ctc_metrics', 'replay_args': [ts, dotted]})
                 if len(res['violations']) >= 4:
                     return res
     res['sample'] = {'family': which, 'tree': repr(part[-1]) if part else None}
